@@ -235,7 +235,7 @@ func (dc *DomConverter) visitElementNodeHandler(node *html.Node) bool {
 		return false
 
 	// These element types are all skipped (but may affect document construction).
-	case "option", "object", "embed", "applet",
+	case "option", "object", "embed", "applet", "audio", "canvas",
 		"input", "button", "form", "textarea", "select":
 		dc.builder.SkipNode(node)
 		return false
